@@ -247,6 +247,24 @@ var accountsPasswdLines = []string{
 	"user0:x:500:500:collides:/home/olduser0:/bin/sh",
 }
 
+// shipped entries whose fields take edge values: an empty password field (password-less), `*` and `!` (locked), empty
+// gecos / shell, a shell-less line.  mutateAccounts parses and rewrites the whole file: every such entry must come
+// back exactly as it was shipped (accounts_append: old ++ configured).
+var accountsPasswdEdgeLines = []string{
+	"guest::405:100:guest:/dev/null:/sbin/nologin",
+	"locked:*:406:406:locked:/dev/null:/sbin/nologin",
+	"bang:!:407:407::/dev/null:",
+	"nopw::408:408::/:/bin/sh",
+	"star:*:409:0:,,,:/:/bin/false",
+}
+
+var accountsGroupEdgeLines = []string{
+	"users::100:games",
+	"lock:!:54:",
+	"shadow:*:42:root,daemon",
+	"nopass::101:",
+}
+
 var accountsGroupLines = []string{
 	"root:x:0:root",
 	"daemon:x:2:root,bin,daemon",
@@ -340,8 +358,17 @@ func accountsGenAccounts(r *Rng, tier string) accountsCase {
 			ops = append(ops, fsOp{K: "writefile", P: p, D: content, N: 0o644})
 		}
 	}
-	place("etc/passwd", text(accountsPasswdLines, "broken:x:notanumber:0::/:/bin/sh"))
-	place("etc/group", text(accountsGroupLines, "broken:x:0"))
+	pwPool, grPool := accountsPasswdLines, accountsGroupLines
+	if r.Chance(35) {
+		pwPool = append(append([]string{}, pwPool...), accountsPasswdEdgeLines...)
+		r.Shuffle(len(pwPool), func(i, j int) { pwPool[i], pwPool[j] = pwPool[j], pwPool[i] })
+	}
+	if r.Chance(35) {
+		grPool = append(append([]string{}, grPool...), accountsGroupEdgeLines...)
+		r.Shuffle(len(grPool), func(i, j int) { grPool[i], grPool[j] = grPool[j], grPool[i] })
+	}
+	place("etc/passwd", text(pwPool, "broken:x:notanumber:0::/:/bin/sh"))
+	place("etc/group", text(grPool, "broken:x:0"))
 	c.Setup = ops
 
 	nu := r.Intn(4)
@@ -399,6 +426,13 @@ func accountsGenE2E(r *Rng) accountsCase {
 		if r.Chance(30) {
 			ls = append(ls, accountsPasswdLines[6])
 		}
+		if r.Chance(35) {
+			for _, l := range accountsPasswdEdgeLines {
+				if r.Chance(50) {
+					ls = append(ls, l)
+				}
+			}
+		}
 		// the last line of a shipped account file need not end in a newline
 		nl := "\n"
 		if r.Chance(35) {
@@ -411,7 +445,15 @@ func accountsGenE2E(r *Rng) accountsCase {
 		if r.Chance(35) {
 			nl = ""
 		}
-		file("etc/group", 0o644, strings.Join(accountsGroupLines[:r.Range(1, 4)], "\n")+nl)
+		gl := append([]string{}, accountsGroupLines[:r.Range(1, 4)]...)
+		if r.Chance(35) {
+			for _, l := range accountsGroupEdgeLines {
+				if r.Chance(50) {
+					gl = append(gl, l)
+				}
+			}
+		}
+		file("etc/group", 0o644, strings.Join(gl, "\n")+nl)
 	}
 	dir("usr")
 	dir("usr/bin")
@@ -742,6 +784,9 @@ func accountsRunE2E(c accountsCase) []Step {
 	}
 	if opw != "" && !strings.HasSuffix(opw, "\n") {
 		tags["e2e:shipped-passwd-no-final-newline"] = struct{}{}
+	}
+	if accountsEdgeFields(opw) || accountsEdgeFields(ogr) {
+		tags["e2e:shipped-edge-fields"] = struct{}{}
 	}
 	if ogr != "" && !strings.HasSuffix(ogr, "\n") {
 		tags["e2e:shipped-group-no-final-newline"] = struct{}{}
